@@ -5,16 +5,16 @@ From SV Require Import Lib.Str Model.Naming Proofs.NamingProofs.
 Theorem C09_convert_off : forall c n, convert false c n = n.
 Proof. exact convert_off. Qed.
 
-Theorem C09_no_underscore : forall c name, str_eqb name US = false -> no_us (convert true c name) = true.
+Theorem C09_no_underscore : forall c name, keeps name = false -> no_us (convert true c name) = true.
 Proof. exact convert_no_underscore. Qed.
 
 (* modulo case, the converted name is the Python name without its underscores: letters and digits in order *)
 Theorem C09_keeps_letters : forall c name,
-  str_eqb name US = false -> map lower (convert true c name) = map lower (remove_us name).
+  keeps name = false -> map lower (convert true c name) = map lower (remove_us name).
 Proof. exact convert_keeps_letters. Qed.
 
 Theorem C09_class_upper : forall name c r,
-  str_eqb name US = false -> convert true true name = c :: r -> is_lower c = false.
+  keeps name = false -> convert true true name = c :: r -> is_lower c = false.
 Proof. exact convert_class_upper. Qed.
 
 Theorem C09_ident_chars : forall nc c name, ascii_ident name = true -> ascii_ident (convert nc c name) = true.
